@@ -112,6 +112,9 @@ class C13(Prop):
             if p.startswith(PREFIX) or p + "/" == PREFIX:
                 continue
             rp = {"driver": "TestVerifC13: <method> <path> through websockets.Proxy with a recording wrapped handler", "method": r.get("method", "GET"), "path": p, "status": r["status"], "location": r["location"], "wrapped_saw": r["wrapped_saw"]}
+            if r["wrapped_saw"] == ["%s %s?q=1" % (r.get("method", "GET"), p)] and r.get("sent_header") is not None and (r.get("wrapped_saw_header") or {}) != r["sent_header"]:
+                diff = sorted(k for k in set(r["sent_header"]) | set(r.get("wrapped_saw_header") or {}) if (r.get("wrapped_saw_header") or {}).get(k) != r["sent_header"].get(k))
+                res.append(("non-shim-request-header-altered", "%s %s (outside the shim prefix) reached the wrapped handler with other values for %s" % (r.get("method", "GET"), p, diff), dict(rp, sent=r["sent_header"], wrapped_saw_header=r.get("wrapped_saw_header"))))
             if r["wrapped_saw"] != ["%s %s?q=1" % (r.get("method", "GET"), p)]:
                 sig = "non-shim-path-not-forwarded:" + ("unclean-path-redirected-by-mux" if r["status"] == 301 and not is_clean(p.replace("%2F", "/")) else "other")
                 res.append((sig, "request for %s (outside the shim prefix) did not reach the wrapped handler unchanged: status %s location %r" % (p, r["status"], r["location"]), rp))
